@@ -71,6 +71,10 @@ pub fn external_about_thorough(id: &str) -> Vec<(&'static str, &'static str, &'s
     match id {
         "C01" => vec![("fz_total_campaign", "libFuzzer (cargo-fuzz, nightly, ASan + debug assertions + overflow checks) on fz_total: bytes -> rule text, newline, data text -> serde_json::from_str x2 -> apply, 16 forked jobs for 120 s from the committed seeds (repository examples, regression inputs) with an operator / extreme-literal dictionary, -max_len=512; oracle inside the target (panic, invalid result text; inputs over the model's work budget skipped, -timeout=60 s).", "distinct coverage-increasing inputs kept in the corpus.")],
         "C04" => vec![("fz_diff_campaign", "libFuzzer on fz_diff: bytes -> arbitrary::Unstructured -> (rule, data) over the operator tables and value corpus (operation-shaped data included) -> implementation vs the single-pass reference model, oracle inside the target; 16 forked jobs for 120 s.", "distinct coverage-increasing inputs kept in the corpus.")],
+        "C07" | "C08" | "C09" | "C10" | "C11" | "C12" | "C15" | "C16" => {
+            let name = match id { "C07" => "fz_eq_campaign", "C08" => "fz_seq_campaign", "C09" => "fz_rel_campaign", "C10" => "fz_arith_campaign", "C11" => "fz_path_campaign", "C12" => "fz_missing_campaign", "C15" => "fz_coll_campaign", _ => "fz_str_campaign" };
+            vec![(name, "libFuzzer (cargo-fuzz, nightly, ASan + debug assertions + overflow checks) on this property's operator-family target: one application of the property's operators whose operands are fuzzer-written text lines (JSON if the line parses, a raw string otherwise; literal or through var) -> implementation vs reference model, oracle inside the target; 16 forked jobs for 120 s from the committed corpus with a dictionary of numeric-literal fragments, white-space characters and operator tokens.", "distinct coverage-increasing inputs kept in the corpus.")]
+        }
         _ => vec![],
     }
 }
